@@ -26,6 +26,7 @@ class IterView(ModelHost):
 
 def as_view(it, v):
     """-> IterView for symbolic-length iterables, or None."""
+    v = it.deopt(v)
     if isinstance(v, GenResult):
         v = gen_items(it, v)
     if isinstance(v, IterView):
